@@ -53,7 +53,7 @@ type c19Model struct {
 	data      []byte
 	i         int
 	past      bool // end_of_file has been delivered by a consuming read
-	ambiguous bool // a peek at the end was made: ISO leaves the state after it open; later results are not compared
+	ambiguous bool // a peek at the end was made: at/past is left open afterwards; only "nothing is delivered again" is compared
 }
 
 var (
@@ -147,9 +147,6 @@ func VH_C19(vm *VM, inst int, nops int) {
 	run := vRunImpl(vm, vConj(seq...), nil, 1, nil)
 	// oracle
 	for k, op := range ops {
-		if m.ambiguous {
-			break
-		}
 		atEnd := m.i >= len(m.data)
 		// per-step view: steps before len(trace) completed; step len(trace) is where the run failed/erred (if it did)
 		r := vImplRun{status: "stopped"}
@@ -163,6 +160,21 @@ func VH_C19(vm *VM, inst int, nops int) {
 			}
 		} else {
 			break // not reached
+		}
+		if m.ambiguous {
+			// After a peek at the end the state (at or past) is left open, so whether the next read delivers end_of_file
+			// or raises an error is not compared. What still holds: the source is used up, so no operation may deliver a
+			// character/byte of it again, and the position cannot go back.
+			if r.status != "stopped" {
+				break
+			}
+			switch op {
+			case c19Get, c19Peek:
+				c19VerifyEOF(binary, got, "after the end was reached a read/peek delivered a character of the source again")
+			case c19Position:
+				verify(got == Term(Integer(len(m.data))), "after the end was reached the position went back")
+			}
+			continue
 		}
 		switch op {
 		case c19Get, c19Peek:
